@@ -78,9 +78,17 @@ def check(n, edges, entry, exits, gen, kill, forward):
   return None
 
 
+def _budget(a, default):
+  if a == 'quick':
+    return default
+  if a == 'thorough':
+    return default * 20
+  return int(a)
+
+
 def main():
   seed = int(sys.argv[1]) if len(sys.argv) > 1 else 0
-  budget = int(sys.argv[2]) if len(sys.argv) > 2 else 4000
+  budget = _budget(sys.argv[2] if len(sys.argv) > 2 else 'quick', 4000)
   rnd = random.Random(seed)
   facts = [frozenset(), frozenset('a'), frozenset('b'), frozenset('ab')]
   evaluated, failures, shapes = 0, [], set()
@@ -117,7 +125,12 @@ def main():
     f = check(n, edges, 0, exits, gen, kill, forward)
     if f:
       failures.append(f)
-  print(json.dumps(dict(evaluated=evaluated, distinct=len(shapes), failures=failures)))
+  for f in failures:
+    f.setdefault('kind', 'fixed-point'); f.setdefault('sig', 'unstable-node'); f.setdefault('what', 'a reachable node does not satisfy its equation after the walk')
+  print(json.dumps(dict(evaluated=evaluated, distinct_nontrivial=len(shapes), failures=failures,
+                        rule='bounded: all digraphs with <= 3 nodes (every edge set) x forward/reverse x 3 random '
+                             'gen/kill tables over 2 facts, plus random 4-5 node graphs; distinct = distinct (graph, direction)',
+                        samples=['3 nodes, edges [(0,1),(1,1),(1,2)], reverse walk, gen/kill over {a,b}'])))
 
 
 main()
